@@ -6,6 +6,7 @@ Program = {"classes": {cname: {"template": nodes, "data": {var: value}, "inject"
 
 Node kinds (lists):
   ["text", tok]                              literal token, rendered as "[tok]"
+  ["fp", tok, "filter"|"tag"]                same output, but produced by a harness filter / tag (a user-code point)
   ["elem", uid, children]                    <e{uid}>..</e{uid}>
   ["if", bool, then, else]
   ["for", var, items, body]                  items: list of values (literal string chars or a list variable)
@@ -108,7 +109,7 @@ class Interp:
         out = []
         for n in nodes:
             k = n[0]
-            if k == "text":
+            if k == "text" or k == "fp":
                 out.append(f"[{n[1]}]")
             elif k == "elem":
                 for i in top:
